@@ -254,7 +254,8 @@ func (e *env) viol(class string, kv ...any) {
 type cfg struct {
 	layer                  string
 	kex, algo, cipher, mac string
-	serverRekey            bool
+	serverRekey            bool // Go<->Go: the server requests the re-key instead of the client
+	clientLimit            bool // OpenSSH: the client is also given a RekeyLimit
 }
 
 func (c cfg) String() string {
@@ -282,10 +283,13 @@ func (e *env) serverConfig(r io.Reader, c *cfg, clientKey ssh.PublicKey) *ssh.Se
 		}
 	}
 	sc.Rand = r
+	sc.ServerVersion = "SSH-2.0-VerifGoServer_2.0 with a comment"
 	if c != nil {
 		sc.KeyExchanges, sc.Ciphers, sc.MACs = []string{c.kex}, []string{c.cipher}, []string{c.mac}
 	} else {
 		sc.KeyExchanges, sc.Ciphers, sc.MACs = e.kex, e.ciphers, e.macs
+		// the Go server forces re-keys while the OpenSSH client transfers its 2 x 200000 bytes
+		sc.RekeyThreshold = 120000
 	}
 	for _, s := range e.signers {
 		sc.AddHostKey(s)
@@ -294,7 +298,11 @@ func (e *env) serverConfig(r io.Reader, c *cfg, clientKey ssh.PublicKey) *ssh.Se
 }
 
 // serveSession echoes a session channel until the client's EOF, then reports exit status 0.
-func serveSession(ch ssh.Channel, reqs <-chan *ssh.Request) {
+// In streaming mode (Go client) bytes are echoed as they arrive. In batch mode (OpenSSH
+// client) everything is read first; if that crossed the server's RekeyThreshold the echo
+// waits until the server side of the second key exchange has run, so that the echoed bytes
+// are certain to travel under the new keys and the re-key is complete on the wire.
+func serveSession(sc *ssh.ServerConn, ch ssh.Channel, reqs <-chan *ssh.Request, batch bool) {
 	go func() {
 		for r := range reqs {
 			if r.WantReply {
@@ -302,12 +310,22 @@ func serveSession(ch ssh.Channel, reqs <-chan *ssh.Request) {
 			}
 		}
 	}()
-	io.Copy(ch, ch)
+	if batch {
+		data, _ := io.ReadAll(ch)
+		if len(data) > 150000 {
+			if key := findConn(sc.SessionID(), true); key != nil {
+				waitKex(key, 2)
+			}
+		}
+		ch.Write(data)
+	} else {
+		io.Copy(ch, ch)
+	}
 	ch.SendRequest("exit-status", false, []byte{0, 0, 0, 0})
 	ch.Close()
 }
 
-func serveConn(chans <-chan ssh.NewChannel, reqs <-chan *ssh.Request) {
+func serveConn(sc *ssh.ServerConn, chans <-chan ssh.NewChannel, reqs <-chan *ssh.Request, batch bool) {
 	go ssh.DiscardRequests(reqs)
 	for nc := range chans {
 		if nc.ChannelType() != "session" {
@@ -318,7 +336,7 @@ func serveConn(chans <-chan ssh.NewChannel, reqs <-chan *ssh.Request) {
 		if err != nil {
 			continue
 		}
-		go serveSession(ch, creqs)
+		go serveSession(sc, ch, creqs, batch)
 	}
 }
 
@@ -487,37 +505,8 @@ func (e *env) decodeAndCheck(c2s, s2c []byte, cliReads, srvReads [][]byte, x exp
 		hook = x.hookServer
 	}
 	src := &secretSource{cliReads: cliReads, srvReads: srvReads, hook: hook, how: map[int]string{}, memo: map[string]*big.Int{}, used: map[string]bool{}}
-	tr, err := tap.Decode(c2s, s2c, src.secret, tap.Options{})
 	tag := x.who + ": "
-	if err != nil && isCBCEtM(x.cfg) {
-		// characterise: does the traffic decode as encrypt-and-MAC?
-		src2 := &secretSource{cliReads: cliReads, srvReads: srvReads, hook: hook, how: map[int]string{}, memo: map[string]*big.Int{}, used: map[string]bool{}}
-		tr2, err2 := tap.Decode(c2s, s2c, src2.secret, tap.Options{MACName: func(cipher, mac string) string {
-			return strings.TrimSuffix(mac, "-etm@openssh.com")
-		}})
-		if err2 == nil {
-			e.viol(knownCBCEtM, "config", x.cfg.String(), "error", err.Error(), "who", x.who)
-			tr, err, src = tr2, nil, src2
-		}
-	}
-	if err != nil {
-		e.viol(tag+"independent decoder cannot decode the connection: "+x.cfg.layer+" "+classOf(x.cfg), "config", x.cfg.String(), "error", err.Error(),
-			"exchanges_decoded", len(tr.Exchanges))
-		return
-	}
-	if src.kErr != "" {
-		e.viol(tag+"shared secret K is not the canonical encoding of the value recomputed from the wire: "+x.cfg.kex, "config", x.cfg.String(), "detail", src.kErr)
-	}
-	for _, h := range src.how {
-		c.Outcome(tag + h)
-	}
-	if tr.Unfinished && x.exactEx {
-		e.viol(tag+"a stream ends inside a key exchange", "config", x.cfg.String())
-	}
-	if len(tr.Exchanges) < x.exchanges || (x.exactEx && len(tr.Exchanges) != x.exchanges) || (!x.exactEx && len(tr.Exchanges) > x.maxEx) {
-		e.viol(tag+"number of key exchanges on the wire differs from the forced re-keys", "config", x.cfg.String(), "seen", len(tr.Exchanges), "want", x.exchanges)
-	}
-	for _, ex := range tr.Exchanges {
+	onEx := func(ex *tap.Exchange) {
 		n := ex.Negotiated
 		if n.Kex != x.cfg.kex || n.HostKey != x.cfg.algo || n.CipherCS != x.cfg.cipher || n.CipherSC != x.cfg.cipher ||
 			(!sshpkt_AEAD(x.cfg.cipher) && (n.MacCS != x.cfg.mac || n.MacSC != x.cfg.mac)) {
@@ -536,6 +525,35 @@ func (e *env) decodeAndCheck(c2s, s2c []byte, cliReads, srvReads [][]byte, x exp
 					"impl", vf.Hex8(hk[ex.Index].H), "ref", vf.Hex8(ex.H))
 			}
 		}
+	}
+	tr, err := tap.Decode(c2s, s2c, src.secret, tap.Options{OnExchange: onEx})
+	if err != nil && isCBCEtM(x.cfg) {
+		// characterise: does the traffic decode as encrypt-and-MAC?
+		src2 := &secretSource{cliReads: cliReads, srvReads: srvReads, hook: hook, how: map[int]string{}, memo: map[string]*big.Int{}, used: map[string]bool{}}
+		tr2, err2 := tap.Decode(c2s, s2c, src2.secret, tap.Options{MACName: func(cipher, mac string) string {
+			return strings.TrimSuffix(mac, "-etm@openssh.com")
+		}})
+		if err2 == nil {
+			e.viol(knownCBCEtM, "config", x.cfg.String(), "error", err.Error(), "who", x.who)
+			tr, err, src = tr2, nil, src2
+		}
+	}
+	if src.kErr != "" {
+		e.viol(tag+"shared secret K is not the canonical encoding of the value recomputed from the wire: "+x.cfg.kex, "config", x.cfg.String(), "detail", src.kErr)
+	}
+	if err != nil {
+		e.viol(tag+"independent decoder cannot decode the connection: "+x.cfg.layer+" "+classOf(x.cfg), "config", x.cfg.String(), "error", err.Error(),
+			"exchanges_decoded", len(tr.Exchanges))
+		return
+	}
+	for _, h := range src.how {
+		c.Outcome(tag + h)
+	}
+	if tr.Unfinished && x.exactEx {
+		e.viol(tag+"a stream ends inside a key exchange", "config", x.cfg.String())
+	}
+	if len(tr.Exchanges) < x.exchanges || (x.exactEx && len(tr.Exchanges) != x.exchanges) || (!x.exactEx && len(tr.Exchanges) > x.maxEx) {
+		e.viol(tag+"number of key exchanges on the wire differs from the forced re-keys", "config", x.cfg.String(), "seen", len(tr.Exchanges), "want", x.exchanges)
 	}
 	cd, err1 := tap.ChannelData(tr.C2S)
 	sd, err2 := tap.ChannelData(tr.S2C)
@@ -578,10 +596,22 @@ func sshpkt_AEAD(cipher string) bool {
 }
 
 func classOf(c cfg) string {
-	if c.layer == "kex x hostkey" {
+	switch c.layer {
+	case "kex x hostkey":
 		return "kex=" + c.kex + " hostkey=" + c.algo
+	case "hash size x key length":
+		return "kex=" + c.kex + " cipher=" + c.cipher + " mac=" + c.mac
 	}
 	return "cipher=" + c.cipher + " mac=" + c.mac
+}
+
+func has(list []string, s string) bool {
+	for _, x := range list {
+		if x == s {
+			return true
+		}
+	}
+	return false
 }
 
 // ---------------------------------------------------------------------------------
@@ -609,7 +639,7 @@ func (e *env) goRun(cf cfg) {
 			sEnd.Close()
 			return
 		}
-		serveConn(chans, reqs)
+		serveConn(sc, chans, reqs, false)
 	}()
 
 	guard := time.AfterFunc(hangGuard, func() {
@@ -628,6 +658,7 @@ func (e *env) goRun(cf cfg) {
 			return nil
 		},
 		HostKeyAlgorithms: []string{cf.algo},
+		ClientVersion:     "SSH-2.0-VerifGoClient_1.0",
 	}
 	cconf.Rand = cliRand
 	cconf.KeyExchanges, cconf.Ciphers, cconf.MACs = []string{cf.kex}, []string{cf.cipher}, []string{cf.mac}
@@ -852,7 +883,7 @@ func (o *openssh) accept() {
 			}
 			run.tap, run.rand, run.sconn = t, r, sc
 			close(run.seen)
-			serveConn(chans, reqs)
+			serveConn(sc, chans, reqs, true)
 			close(run.done)
 		}(conn, n)
 	}
@@ -876,8 +907,13 @@ func (o *openssh) run(cf cfg, payload []byte) {
 		"-o", "UpdateHostKeys=no",
 		"-o", "KexAlgorithms=" + cf.kex, "-o", "HostKeyAlgorithms=" + cf.algo, "-o", "Ciphers=" + cf.cipher, "-o", "MACs=" + cf.mac,
 		"-o", "IdentityFile=" + o.idFile, "-o", "IdentitiesOnly=yes", "-o", "PreferredAuthentications=publickey", "-o", "BatchMode=yes",
-		"-o", "RekeyLimit=150K", "-o", "LogLevel=ERROR", "-o", "ConnectTimeout=120",
+		"-o", "LogLevel=ERROR", "-o", "ConnectTimeout=120",
 		"-p", fmt.Sprint(o.port), user + "@127.0.0.1", "echo-stdin"}
+	if cf.clientLimit {
+		// OpenSSH 9.2 adds the byte length of the next packet to its block count, so with this
+		// limit the client asks for a new key exchange before nearly every full-size packet
+		args = append([]string{"-o", "RekeyLimit=256K"}, args...)
+	}
 	if strict == "no" {
 		// plain keys: do not let the CA line interfere, nothing is remembered
 		for i, a := range args {
@@ -925,7 +961,7 @@ func (o *openssh) run(cf cfg, payload []byte) {
 	defer forget(skey)
 	recs := kexRecords(skey)
 	if len(payload) >= 100000 && len(recs) < 2 {
-		e.viol(tag+"no re-key happened although the OpenSSH client was given RekeyLimit=150K", "config", cf.String(), "exchanges", len(recs))
+		e.viol(tag+"no re-key happened although the Go server has RekeyThreshold=120000", "config", cf.String(), "exchanges", len(recs))
 	}
 	if len(recs) >= 2 {
 		c.Outcome(tag + "re-keyed during the transfer")
@@ -959,7 +995,7 @@ func union(a, b []string) []string {
 
 func run(c *vf.Ctx) {
 	c.Rule("configurations: (layer 1) every key exchange x every host key algorithm of SupportedAlgorithms()+InsecureAlgorithms() with the cipher/MAC fixed, " +
-		"(layer 2) every cipher x every MAC with kex/host key fixed; each run = handshake, authentication, session channel, payloads {0,1,200000} bytes echoed, " +
+		"(layer 2) every cipher x every MAC with kex/host key fixed, (layer 3) every exchange hash size x key material of 1..4 digests; each run = handshake, authentication, session channel, payloads {0,1,200000} bytes echoed, " +
 		"forced re-key, payloads again; once with the Go client over a tapped in-memory pipe, once (where OpenSSH supports the algorithms) with /usr/bin/ssh over loopback TCP. " +
 		"A case is distinct by (peer, layer, algorithm pair).")
 	c.Assume("standard library primitives (AES, DES, RC4, HMAC, hashes, RSA/ECDSA/Ed25519/DSA verification, ML-KEM) are trusted; ChaCha20, Poly1305, GCM, CTR, CBC framing, key derivation, exchange hashes and negotiation are re-implemented in /verif/ref")
@@ -1005,6 +1041,15 @@ func run(c *vf.Ctx) {
 	for _, ci := range e.ciphers {
 		for _, m := range e.macs {
 			cfgs = append(cfgs, cfg{layer: "cipher x mac", kex: fixedKex, algo: fixedAlgo, cipher: ci, mac: m})
+		}
+	}
+	// layer 3: RFC 4253 7.2 key stretching classes: every exchange hash size x key material of
+	// 1..4 digests (64-byte chacha20 and hmac-sha2-512 keys with SHA-1/256/384/512 exchanges)
+	for _, k := range []string{"diffie-hellman-group14-sha1", "ecdh-sha2-nistp256", "ecdh-sha2-nistp384", "ecdh-sha2-nistp521"} {
+		for _, cm := range [][2]string{{"chacha20-poly1305@openssh.com", fixedMAC}, {"aes256-ctr", "hmac-sha2-512"}, {"3des-cbc", "hmac-sha1-96"}} {
+			if has(e.kex, k) && has(e.ciphers, cm[0]) && has(e.macs, cm[1]) {
+				cfgs = append(cfgs, cfg{layer: "hash size x key length", kex: k, algo: fixedAlgo, cipher: cm[0], mac: cm[1]})
+			}
 		}
 	}
 	goCfgs := append([]cfg{}, cfgs...)
@@ -1060,6 +1105,8 @@ func run(c *vf.Ctx) {
 			unsupported = append(unsupported, miss)
 			continue
 		}
+		// client-initiated re-keys too: for every cipher x MAC pair (cheap kex) in the quick tier, for everything in the thorough tier
+		cf.clientLimit = cf.layer == "cipher x mac" || c.Thorough
 		sshCfgs = append(sshCfgs, cf)
 	}
 	unsupported = union(unsupported, nil)
